@@ -3,7 +3,7 @@
    The statements quantify over every value type, every trace-position function, every stream and
    every sequence of appends.  Lifting them to consecutive runs of execute_air (values of the previous
    run are re-added under `Previous (stored generation)`) is done where the executor model lives. *)
-From Aqua Require Import Base Stream StreamProofs.
+From Aqua Require Import Base Stream StreamProofs StreamTie StreamTieProofs.
 Open Scope N_scope.
 
 (* iter enumerates previous, then current, then new; each by generation, then by insertion order *)
@@ -38,6 +38,25 @@ Theorem C12_streams : C12_streams_full.
 Proof.
   exact (conj StreamProofs.C12_iter_order (conj StreamProofs.C12_compactify_order
         (conj StreamProofs.C12_tagged_sources (conj StreamProofs.C12_run_pair StreamProofs.C12_seen_before_new)))).
+Qed.
+
+(* the functions these theorems are about are the ones in /repo's sources today (tools/genx_stream.py re-reads
+   them on every run): Stream::iter chains previous, current, new; compactify numbers previous from 0, current
+   from |previous|, new from |previous| + |current| after removing the empty generations, generation =
+   start + position; Generation::from_data maps PreviousData / CurrentData to Previous / Current; a state
+   merged under scheme Previous or Both is PreviousData, under Current CurrentData (the rule by which the
+   correspondence driver reconstructs the generations of replayed appends) *)
+Theorem C12_source_tie :
+  src_stream_fields = known_fields /\
+  (forall (V : Type) (s : stream V), stream_iter V s = iter_by V src_stream_iter_chain s) /\
+  (forall (V : Type) (s : stream V), compact_tagged V s = tagged_by V src_stream_compactify_steps s) /\
+  src_stream_compactify_removes_empty_first = known_fields /\ src_update_generations_is_start_plus_position = true /\
+  (forall src g, generation_by src_generation_from_data src g = Some (generation_from_data src g)) /\
+  (forall in_prev in_cur, source_by src_value_source_of_scheme in_prev in_cur = driver_source_rule in_prev in_cur).
+Proof.
+  exact (conj fields_tie (conj iter_tie (conj (fun V s => proj1 (compactify_tie V s))
+        (conj (proj1 (proj2 (compactify_tie unit (stream_new unit)))) (conj (proj2 (proj2 (compactify_tie unit (stream_new unit))))
+        (conj generation_tie driver_rule_tie)))))).
 Qed.
 
 (* ---------------- non-vacuity ---------------- *)
@@ -77,12 +96,15 @@ Example C12_run_pair_example :
   map (fun x => (t_val N x, t_new N x)) (compact_tagged N run2) = [(11, 0); (12, 1); (13, 2); (14, 3); (15, 4)].
 Proof. vm_compute. split; reflexivity. Qed.
 
-(* the hypothesis of compactify_order is satisfiable and the crash it excludes exists in the model:
-   2^32 generations cannot be numbered *)
+(* the hypothesis of compactify_order is satisfiable; a generation index that could not be renumbered is
+   refused by Stream::add_value before it reaches the matrix (fix C01-stream-generation-resize; before it
+   `GPrevious 4294967295` crashed in checked_add(1).unwrap()) *)
 Example C12_compactify_bound_example :
-  count_all N (mk [(1, GPrevious 4000000000); (2, GCurrent 9)]) = 2 /\
-  stream_add_value N (stream_new N) 1 (GPrevious 4294967295) = SCrash SiteGenCheckedAddOne.
-Proof. vm_compute. split; reflexivity. Qed.
+  count_all N (mk [(1, GPrevious (stream_max_size - 24)); (2, GCurrent 9)]) = 2 /\
+  stream_add_value N (stream_new N) 1 (GPrevious 4294967295) = SErr StreamSizeLimitExceeded /\
+  stream_add_value N (stream_new N) 1 (GCurrent stream_max_size) = SErr StreamSizeLimitExceeded /\
+  match stream_add_value N (stream_new N) 1 (GCurrent (stream_max_size - 1)) with SOk s => m_len (s_cur s) = stream_max_size | _ => False end.
+Proof. vm_compute. repeat split. Qed.
 
 Print Assumptions C12_iter_order.
 Print Assumptions C12_compactify_order.
@@ -90,3 +112,4 @@ Print Assumptions C12_tagged_sources.
 Print Assumptions C12_run_pair.
 Print Assumptions C12_seen_before_new.
 Print Assumptions C12_streams.
+Print Assumptions C12_source_tie.
